@@ -44,6 +44,7 @@ type c08SpyFS struct {
 	failWrite string
 	failMkdir string
 	fired     int32
+	tick      func() // called when a ReadFile / Reader / ReadDir of the walk begins (nil = nothing)
 }
 
 func c08Spy(inner filesystem.Filespace) *c08SpyFS {
@@ -64,6 +65,9 @@ func (f *c08SpyFS) fail(what string) error {
 }
 
 func (f *c08SpyFS) ReadFile(p string) ([]byte, error) {
+	if f.tick != nil {
+		f.tick()
+	}
 	if np := f.count(f.reads, p); f.failRead != "" && np == f.failRead {
 		return nil, f.fail("read")
 	}
@@ -71,6 +75,9 @@ func (f *c08SpyFS) ReadFile(p string) ([]byte, error) {
 }
 
 func (f *c08SpyFS) Reader(p string) (filesystem.Reader, error) {
+	if f.tick != nil {
+		f.tick()
+	}
 	if np := f.count(f.reads, p); f.failRead != "" && np == f.failRead {
 		return nil, f.fail("read")
 	}
@@ -92,6 +99,9 @@ func (f *c08SpyFS) MkdirAll(p string, m os.FileMode) error {
 }
 
 func (f *c08SpyFS) ReadDir(p string) ([]os.FileInfo, error) {
+	if f.tick != nil {
+		f.tick()
+	}
 	if np := c08Norm(p); f.failList != "" && (np == f.failList || (f.failList == "." && np == "")) {
 		return nil, f.fail("listing")
 	}
@@ -289,14 +299,45 @@ func c08LoadProbe(o *Out, rng *RNG, n int) {
 			}
 		}
 		var scp app.Scope
-		if rng.Bool() {
+		if rng.Chance(65) {
 			scp = scope.New(scope.Params{})
+		}
+		// the application scope the loader is attached to is ended by somebody else while the files are
+		// being loaded (Kill, an error of another component, the same on a child scope), when the n-th
+		// listing / read of the walk begins; nothing fails inside the walk
+		outside, outsideN := "none", 0
+		var reached int32
+		if scp != nil && fault == "none" && rng.Chance(75) {
+			var cnt int32
+			outsideN = 1 + rng.Intn(len(sel)+len(listed)+2)
+			target := scp
+			kind := rng.Intn(4)
+			if kind >= 2 {
+				target = scope.NewChild(scp, scope.ChildParams{})
+			}
+			outside = []string{"Kill", "AppendError", "Kill of a child scope", "AppendError on a child scope"}[kind]
+			spy.tick = func() {
+				if atomic.AddInt32(&cnt, 1) != int32(outsideN) {
+					return
+				}
+				atomic.StoreInt32(&reached, 1)
+				done := make(chan struct{})
+				go func() {
+					defer close(done)
+					if kind%2 == 0 {
+						target.Kill()
+					} else {
+						target.AppendError(errors.New("error of another component of the application"))
+					}
+				}()
+				<-done
+			}
 		}
 		i18 := i18mem.NewI18N()
 		res := make(chan error, 1)
 		go func() { res <- fsi18loader.Load(spy, r.base(), i18, scp) }()
 		d := map[string]interface{}{"probe": "fsi18loader.Load", "i": i, "tree": c08Desc(tree), "base": r.base(), "scope": scp != nil, "fault": fault,
-			"fault_at": spy.failRead + spy.failList, "selected": sel}
+			"fault_at": spy.failRead + spy.failList, "selected": sel, "scope_ended_from_outside": outside, "at_read_or_listing_no": outsideN}
 		var err error
 		select {
 		case err = <-res:
@@ -307,7 +348,7 @@ func c08LoadProbe(o *Out, rng *RNG, n int) {
 		fired := atomic.LoadInt32(&spy.fired) > 0 || fault == "broken file"
 		d["load_error"] = fmt.Sprint(err)
 		d["fault_fired"] = fired
-		o.CountEval(fmt.Sprintf("load|%s|%s|%d|%v", r.Start, fault, len(sel), scp != nil), len(sel) > 0)
+		o.CountEval(fmt.Sprintf("load|%s|%s|%d|%v|%s", r.Start, fault, len(sel), scp != nil, outside), len(sel) > 0)
 		o.Stat("load_probe_" + strings.ReplaceAll(fault, " ", "_"))
 		if fired {
 			if err == nil {
@@ -315,7 +356,15 @@ func c08LoadProbe(o *Out, rng *RNG, n int) {
 			}
 			continue
 		}
-		if err != nil {
+		if atomic.LoadInt32(&reached) == 1 {
+			// Load may report the end of its scope or finish the walk; what it must not do is return nil
+			// with translations missing (decided below)
+			o.Stat("load_probe_scope_ended_from_outside")
+			if err != nil {
+				continue
+			}
+			o.Stat("load_probe_scope_ended_from_outside_returned_nil")
+		} else if err != nil {
 			o.Fail("no-spurious-error", "fsi18loader.Load reports an error although nothing failed: "+err.Error(), "C08-load-spurious", d)
 			continue
 		}
